@@ -26,7 +26,10 @@ Record hobs := mkObs {
 
 Inductive cstep :=
 | SOp (o : op) (obs : hobs)
-| SQuery (mint maxt : Z) (sel : list sid) (res : list (sid * list (Z * Z))).
+| SQuery (mint maxt : Z) (sel : list sid) (res : list (sid * list (Z * Z)))
+| SSpec (o : sop).   (* a specification-only step (mixed sample kinds: the structured model is
+                        float-only); from here on [agree] does not judge the case, [holds] does.
+                        Values of such cases are codes kind*10^6 + digest. *)
 
 Record case := mkCase { c_id : Z; c_cfg : cfg; c_steps : list cstep }.
 
@@ -89,6 +92,7 @@ Fixpoint agree_steps (c : cfg) (s : state) (l : list cstep) : bool :=
   | [] => true
   | SOp o obs :: r => let s' := step c s o in obs_agree c s' obs && agree_steps c s' r
   | SQuery mint maxt sel res :: r => answer_ok (drop_empty res) (query s mint maxt sel) && agree_steps c s r
+  | SSpec _ :: _ => true
   end.
 Definition agree (c : case) : bool := agree_steps (c_cfg c) state0 (c_steps c).
 
@@ -97,6 +101,7 @@ Fixpoint holds_steps (sp : sstate) (l : list cstep) : bool :=
   | [] => true
   | SOp o _ :: r => holds_steps (spec_step sp (spec_of_op o)) r
   | SQuery mint maxt sel res :: r => answer_ok (drop_empty res) (spec_query sp mint maxt sel) && holds_steps sp r
+  | SSpec o :: r => holds_steps (spec_step sp o) r
   end.
 Definition holds (c : case) : bool := holds_steps sempty (c_steps c).
 
